@@ -325,3 +325,50 @@ package funcGen
 //@   assert[impure-closure-not-called] "closure.Func(NewStack[V](c...), nil)" closure.IsPure && pureFn(closure.Func)
 //@   assert[impure-method-not-called] "fu.Func(NewStack[V](args...), nil)" fu.IsPure && pureFn(fu.Func)
 //@   ensures[same-outcome] result != nil && (typeis(ast, *parser2.Operate) || typeis(ast, *parser2.Unary) || typeis(ast, *parser2.If) || typeis(ast, *parser2.ListAccess) || typeis(ast, *parser2.MapAccess) ==> evOK(result) == evOK(ast) && (evOK(ast) ==> evV(result) == evV(ast)))
+
+// ---------------------------------------------------------------- C10: an evaluation depends on its own arguments only
+// Every evaluation through Func.Eval runs on a stack of its own that holds exactly the arguments; the compiled code is
+// stateless (no literal of the generator assigns a captured variable: closure:*.captures-read-only, generated for every
+// closure-spec above); constants are returned as they are (closure-spec "return a.Value, nil").
+//@ ghost func nargs(f any) int
+
+//@ func NewEmptyStack
+//@   property C10
+//@   ensures[fresh-and-empty] result.storage != nil && fresh(result.storage) && fresh(result.storage.data) && result.offs == 0 && result.size == 0 && len(result.storage.data) == 0
+//@   assigns nothing
+
+//@ func (s Stack[V]) Init
+//@   property C10
+//@   safety C05
+//@   requires s.storage != nil && ref(v) != ref(s.storage.data)
+//@   ensures[exactly-the-arguments] result.storage == s.storage && result.offs == 0 && result.size == len(v) && len(result.storage.data) >= len(v) && (forall i in 0..len(v) :: result.storage.data[i] == v[i])
+//@   assigns any stackStorage[V].data, any []V
+//@   loop 1 invariant 0 <= rangeidx && rangeidx <= len(v) && s.offs == 0 && s.size == rangeidx && s.size <= len(s.storage.data) && s.storage == old(s.storage) && ref(v) != ref(s.storage.data) && (forall i in 0..rangeidx :: s.storage.data[i] == v[i])
+
+// a generated function: called with exactly as many stack slots as Generate was given argument names
+//@ type-contract Func
+//@   option params=st
+//@   requires[nonnil] self != nil
+//@   requires[stack] validStack(st)
+//@   requires[arity] st.size == nargs(self)
+//@   assigns any value.List.items, any value.List.itemsPresent, any value.List.iterable, any stackStorage[V].data, any []V
+
+//@ func (f Func[V]) Eval
+//@   property C10
+//@   safety C05
+//@   requires[as-many-arguments-as-names] f != nil && len(args) == nargs(f)
+
+// parsing (C03/C04) is behind this TRUSTED boundary here: it yields a tree or an error, builds the operator maps on
+// first use (flagsSound: the meaning of the host's purity flags, assumed) and touches only the generator's parser
+//@ func (g *FunctionGenerator[V]) CreateAst
+//@   trusted
+//@   requires g != nil
+//@   ensures result1 == nil ==> result0 != nil
+//@   ensures flagsSound(g)
+//@   assigns any FunctionGenerator[V].parser, any FunctionGenerator[V].opMap, any FunctionGenerator[V].uMap
+
+//@ func (g *FunctionGenerator[V]) generateIntern
+//@   property C10
+//@   requires g != nil
+//@   ensures[takes-the-named-arguments] result2 == nil ==> result0 != nil && nargs(result0) == len(args)
+//@   closure-spec "return f(st, nil)" as Func attr nargs(self) = len(args)
